@@ -148,7 +148,16 @@ def run_case(case):
             obs.append(["err", "RecursionError"])
         except Exception as ex:  # the class name is the observation
             obs.append(["err", type(ex).__name__])
-    res = {"edges": [[int(a), int(b)] for a, b in m.edges],
+    # the four rings of a few vertices, read together at the end: their mutual alignment is part of the property
+    rings = []
+    try:
+        rr = random.Random(case.get("script_seed", 0) + 1)
+        for V in rr.sample(range(nv2), min(4, nv2)):
+            rings.append([V, canon(list(cn.vertex_to_corners(V))), canon(list(cn.vertex_to_vertices(V))),
+                          canon(list(cn.vertex_to_faces(V))), canon(list(cn.vertex_to_edges(V)))])
+    except Exception as ex:
+        rings = [["err", type(ex).__name__]]
+    res = {"rings": rings, "edges": [[int(a), int(b)] for a, b in m.edges],
            "corner_elem": [int(m.face_corners.element(i)) for i in range(len(m.face_corners))],
            "corner_adj": [int(m.face_corners.adj(i)) for i in range(len(m.face_corners))],
            "nv": nv2, "faces": faces2, "script": script, "route": used, "note": note,
